@@ -22,8 +22,20 @@ pub fn run(prop: &str, tier: Tier, seed: i64, replay: Option<&str>) -> i32 {
     }
     let mut ck = Check::new(prop, tier, seed, started);
     match prop {
-        "C01" | "C02" | "C04" | "C05" | "C06" | "C07" | "C10" | "C13" => {
+        "C01" | "C02" | "C04" | "C05" | "C06" | "C07" | "C10" | "C13" | "C16" => {
             ck.lens_stage(plans_for(prop, tier));
+            if matches!(prop, "C01" | "C02" | "C04" | "C06" | "C07" | "C10" | "C13" | "C16") {
+                let (a, r) = crate::engine_b::spelling_stage(prop, monitors_for(prop), tier);
+                ck.add_stage(a, r);
+            }
+            if matches!(prop, "C05" | "C06" | "C16") {
+                if prop == "C05" {
+                    let (a, r) = crate::engine_b::fault_stage(tier);
+                    ck.add_stage(a, r);
+                } else {
+                    faults_as_inputs(&mut ck);
+                }
+            }
             if matches!(prop, "C06" | "C01" | "C10" | "C04") {
                 ck.pumping_stage();
             }
@@ -47,6 +59,25 @@ pub fn run(prop: &str, tier: Tier, seed: i64, replay: Option<&str>) -> i32 {
         "C12" => {
             checksum_stage(&mut ck);
             ck.lens_stage(plans_for(prop, tier));
+            let (a, r) = crate::engine_b::spelling_stage(prop, monitors_for(prop), tier);
+            ck.add_stage(a, r);
+        },
+        "C17" => {
+            let (a, r) = crate::transcript::compare(tier, None);
+            ck.add_stage(a, r);
+        },
+        "C19" => {
+            let (a, reps) = crate::pools::run(tier);
+            let mut first = true;
+            for r in reps {
+                if first {
+                    ck.add_stage(Acc::new(), r);
+                    first = false;
+                } else {
+                    ck.add_stage(Acc::new(), r);
+                }
+            }
+            ck.total.merge(a);
         },
         #[cfg(feature = "typed")]
         "C08" => {
@@ -110,6 +141,27 @@ fn builder_stages(ck: &mut Check, with_product: bool) {
     one::<String>(ck, mon, depth, with_product);
     #[cfg(feature = "typed")]
     one::<purl::PackageType>(ck, mon, depth, with_product);
+}
+
+/// Single-fault strings of Engine B as plain inputs for the monitors of another property.
+fn faults_as_inputs(ck: &mut Check) {
+    use crate::spell::*;
+    let se = StringEval { prop: ck.prop, mon: monitors_for(ck.prop) };
+    let tuples = tuple_universe(false);
+    let a = par_items(tuples.len(), threads(), |i, acc| {
+        let t = &tuples[i];
+        let menu = fault_menu(t);
+        for (site, n) in menu.iter().enumerate() {
+            for alt in 1..=*n {
+                let (text, info) = respell(t, &[], Some(FaultSel { site, alt }));
+                if info.is_some() && se.eval(&text, acc) {
+                    acc.nontrivial += 1;
+                }
+            }
+        }
+    });
+    let n = a.evals;
+    ck.add_stage(a, json!({"engine": "B-faults-as-inputs", "tuples": tuples.len(), "faulted_strings": n}));
 }
 
 fn shapes_stage(ck: &mut Check) {
@@ -244,6 +296,7 @@ pub fn monitors_for(prop: &str) -> u32 {
         "C10" => M10,
         "C12" => M12,
         "C13" => M13,
+        "C16" => M16,
         "C18" => M18,
         _ => 0,
     }
@@ -263,6 +316,12 @@ pub fn replay_case(prop: &'static str, case: &Value) -> Option<Vec<Violation>> {
         },
         "quals-bfs" => return crate::xstate::replay(&crate::m_quals::QModel::new(Tier::Thorough, false), case).or_else(|| crate::xstate::replay(&crate::m_quals::QModel::new(Tier::Quick, false), case)),
         "quals-typed-bfs" => return crate::xstate::replay(&crate::m_quals::QModel::new(Tier::Quick, true), case),
+        "spell" => return crate::engine_b::replay(prop, monitors_for(prop), case),
+        "pool-pair" => return crate::pools::replay_pair(case),
+        "transcript" => {
+            let (a, _) = crate::transcript::compare(Tier::Quick, case["chunk"].as_str());
+            return Some(a.violations);
+        },
         "shape-parse" | "shape-build" => return crate::m_shapes::replay(case),
         "checksum-bfs" => return crate::xstate::replay(&crate::m_checksum::CModel::new(prop, Tier::Thorough), case),
         "builder-bfs" => return crate::xstate::replay(&crate::m_builder::BModel::<String>::new(prop, monitors_for(prop), 2), case),
@@ -322,6 +381,7 @@ pub fn plans_for(prop: &str, tier: Tier) -> Vec<Plan> {
         "C07" => pick(&["A3", "A1a", "A1b"]),
         "C13" => pick(&["A2-", "A1a", "A1b", "A3", "A4", "A5a", "A5b", "A6"]),
         "C12" => pick(&["A6"]),
+        "C16" => pick(&["A1b", "A2-", "A2s", "A4", "A5b", "A6", "A7"]),
         "C08" => pick(&["A7", "A2-", "A1b"]),
         "C18" => pick(&["A7"]),
         _ => all.clone(),
@@ -349,6 +409,9 @@ fn rule_for(prop: &str) -> &'static str {
         "C10" => "every node of every token lens; non-trivial = accepted (into_builder().build() is then compared with the value)",
         "C13" => "every node of the lenses parsed as String and as SmallString; non-trivial = accepted by the String instantiation (refusals are compared too)",
         "C15" => "all 2^len case variants of the seven names; every string up to the bound over the letters of the names in both cases plus look-alikes; every scalar value inserted at and substituted at every position of every name; deletions, transpositions, paddings, 35 other type names; non-trivial = every string except substitutions that reproduce the original letter",
+        "C16" => "every node of the token lenses, every spelling with at most d deviations and every single-fault string of the spelling explorer, as GenericPurl<String> and Purl: deserialising the JSON string (serde_json::from_str, from_value, value::StringDeserializer) succeeds exactly when from_str does, with equal value and the same error text; serialising gives exactly the canonical string; JSON round trip is the identity; eight non-string JSON values around each accepted PURL are refused. Every string is non-trivial",
+        "C17" => "one deterministic input stream (token lenses at n-1, spellings with at most one deviation, builder field pairs x qualifier sets x types) is run by the same harness source built once per feature set; outcome lines (error text, or type/accessors/canonical string) are hashed per chunk and the digests compared; non-trivial = every input of the stream (it is executed in every build)",
+        "C19" => "pools of values from the lenses (parser) and the builder product, at most two instances per accessor view, for String, SmallString, Cow (borrowed/owned mixed) and PackageType; ALL pairs of each pool are examined: == iff canonical strings equal, equal => same hash, cmp Equal iff ==, cmp antisymmetric, and with the pool sorted by cmp every i<j satisfies s[i]<=s[j] (total preorder => transitivity, totality); distinct_nontrivial = distinct canonical strings over the pools",
         "C18" => "every string up to the bound over {a B / : . @ e-acute} and every scalar value inside a fixed frame as combined name for each of the seven types (split compared with a reference split; built value compared; inverse applied to the built value); lenses: every typed PURL accepted that satisfies the side condition is fed back through combined_name(); non-trivial = forward cases, and lens nodes whose side condition holds",
         _ => "",
     }
